@@ -4,7 +4,7 @@
    [Reachable (step c) (Initial n B) s] ranges over EVERY schedule from every initial state with n Stop
    callers (any n) and budget B. *)
 From Coq Require Import List Arith Lia Bool.
-From Dastard Require Import C10.Conc C10.Model C10.Spec C10.Proofs C10.Proofs2.
+From Dastard Require Import C10.Conc C10.Model C10.Spec C10.Proofs C10.Proofs2 C10.Variant C10.Variant2.
 Import ListNotations.
 
 (* In every reachable state: nothing has crashed; Active implies the run-done counter is 1 and the core
@@ -83,3 +83,23 @@ Theorem failed_start_releases_refuted_pre_fix :
             /\ starter s = StDone RErr /\ sst s = Inactive /\ dev s = true.
 Proof. exact failed_start_old_leaks. Qed.
 Print Assumptions failed_start_releases_refuted_pre_fix.
+
+(* Every Stop returns within a bound.  For every number n of Stop callers, every budget B (the fairness
+   assumption made explicit: the blocks the producer may still emit after abortSelf is closed before its
+   select takes the abort case) and EVERY schedule: the number of counted steps is at most
+   10 n + 6 B + 35, where the only steps not counted are steps of the core loop and the producer inside
+   the steady data-flow cycle (no stop signalled, source healthy) ... *)
+Theorem stop_returns :
+  forall n B c s0 sched s, c_fair c = true -> Initial n B s0 -> run (step c) s0 sched = Some s ->
+    count_steps (step c) (counted c) s0 sched <= 10 * n + 6 * B + 35.
+Proof. exact counted_steps_bounded. Qed.
+Print Assumptions stop_returns.
+
+(* ... once the stop signal is out every step of every thread counts, and the steps of the callers of
+   Start and Stop always count; so from the moment any Stop has closed abortSelf the whole system can take
+   at most that many further steps, and by no_deadlock it can stop only when every call has returned. *)
+Theorem stop_returns_every_step_counts :
+  forall c s t s', step c s t = Some s' ->
+    (abort s = ChClosed -> counted c s t = true) /\ (flow_tid t = false -> counted c s t = true).
+Proof. exact every_step_counts. Qed.
+Print Assumptions stop_returns_every_step_counts.
